@@ -15,7 +15,7 @@ use std::{
 use mio::Token;
 use sozu_command::logging::ansi_palette;
 
-use super::{GenericHttpStream, Position};
+use super::{GenericHttpStream, Position, h2::DEFAULT_INITIAL_WINDOW_SIZE};
 use crate::metrics::names;
 use crate::{
     L7ListenerHandler, ListenerHandler, Protocol, SessionMetrics, pool::Pool,
@@ -54,7 +54,12 @@ impl StreamState {
 }
 
 pub struct Stream {
+    /// Send window of the frontend's H2 stream (what the client lets us send).
     pub window: i32,
+    /// Send window of the backend's H2 stream (what the backend lets us send).
+    /// The two peers advertise and replenish their windows independently
+    /// (RFC 9113 §6.9): they are never interchangeable.
+    pub back_window: i32,
     pub attempts: u8,
     pub state: StreamState,
     /// True when the frontend connection has received end_of_stream from the client.
@@ -96,6 +101,7 @@ impl Debug for Stream {
     fn fmt(&self, f: &mut std::fmt::Formatter<'_>) -> std::fmt::Result {
         f.debug_struct("Stream")
             .field("window", &self.window)
+            .field("back_window", &self.back_window)
             .field("attempts", &self.attempts)
             .field("state", &self.state)
             .field(
@@ -147,6 +153,7 @@ impl Stream {
             state: StreamState::Idle,
             attempts: 0,
             window: i32::try_from(window).unwrap_or(i32::MAX),
+            back_window: DEFAULT_INITIAL_WINDOW_SIZE as i32,
             front_received_end_of_stream: false,
             back_received_end_of_stream: false,
             front_data_received: 0,
@@ -242,6 +249,22 @@ impl Stream {
         front_done && back_done
     }
 
+    /// The send window of this stream on the connection at `position`:
+    /// the backend's for a client connection, the frontend's for a server one.
+    pub fn send_window(&self, position: &Position) -> i32 {
+        match position {
+            Position::Client(..) => self.back_window,
+            Position::Server => self.window,
+        }
+    }
+
+    pub fn set_send_window(&mut self, position: &Position, window: i32) {
+        match position {
+            Position::Client(..) => self.back_window = window,
+            Position::Server => self.window = window,
+        }
+    }
+
     pub fn split(&mut self, position: &Position) -> StreamParts<'_> {
         // Pre: the front buffer always parses requests and the back buffer
         // always parses responses. `split` only re-labels them as read/write
@@ -258,7 +281,7 @@ impl Stream {
         );
         match position {
             Position::Client(..) => StreamParts {
-                window: &mut self.window,
+                window: &mut self.back_window,
                 rbuffer: &mut self.back,
                 wbuffer: &mut self.front,
                 received_end_of_stream: &mut self.back_received_end_of_stream,
